@@ -335,6 +335,265 @@ theorem mw_rejects_with_429 (cfg : MwCfg) (txt : Bytes) (o : Out) (h : o.allowed
     (mwBucket cfg txt o).retryAfter = some o.reset := by
   unfold mwBucket; simp [h, he, hc]
 
+/-! ## the whole token-bucket oracle holds of the model -/
+
+theorem lemma_runStore_length (r B : Int) (st : Store) (calls : List (Bytes × Int)) :
+    (runStore r B st calls).length = calls.length := by
+  induction calls generalizing st with
+  | nil => rfl
+  | cons c rest ih =>
+    obtain ⟨k, t⟩ := c
+    simp only [runStore, runStoreWith, List.length_cons]
+    have := ih (Store.allowWith allow r B st k t).1
+    simp only [runStore] at this
+    rw [this]
+
+/-- one key's (time, answer) pairs in a store trace are its calls served on its own entry -/
+theorem lemma_project (r B : Int) (st : Store) (calls : List (Bytes × Int)) (k : Bytes) :
+    project k calls (runStore r B st calls) =
+      ((calls.filter (·.1 == k)).map (·.2)).zip (runKey r B (st.get k) ((calls.filter (·.1 == k)).map (·.2))) := by
+  unfold project
+  induction calls generalizing st with
+  | nil => simp [runStore, runStoreWith, runKey]
+  | cons c rest ih =>
+    obtain ⟨key, t⟩ := c
+    simp only [runStore, runStoreWith, List.zip_cons_cons, List.filterMap_cons, List.filter_cons]
+    by_cases hk : (key == k) = true
+    · have hkk : key = k := by simpa using hk
+      subst hkk
+      simp only [hk, if_true, List.map_cons, runKey, List.zip_cons_cons]
+      have ih' := ih (Store.allowWith allow r B st key t).1
+      simp only [runStore] at ih'
+      rw [ih']
+      simp only [Store.allowWith, lemma_get_set_self]
+    · have hkf : (key == k) = false := by simpa using hk
+      simp only [hkf, Bool.false_eq_true, if_false]
+      have ih' := ih (Store.allowWith allow r B st key t).1
+      simp only [runStore] at ih'
+      rw [ih']
+      have hne : k ≠ key := fun h => by simp [h] at hkf
+      simp only [Store.allowWith, lemma_get_set_other _ _ _ _ hne]
+
+/-- `runKey` on an existing entry: the answers, whose decisions are those of `run` -/
+def outs (r B : Int) : Bucket → List Int → List Out
+  | _, [] => []
+  | s, t :: ts => (allow r B s t).2 :: outs r B (allow r B s t).1 ts
+
+theorem lemma_runKey_some (r B : Int) (s : Bucket) (ts : List Int) : runKey r B (some s) ts = outs r B s ts := by
+  induction ts generalizing s with
+  | nil => rfl
+  | cons t ts ih => simp only [runKey, outs, Option.getD_some, ih]
+
+theorem lemma_runKey_none (r B : Int) (t : Int) (ts : List Int) :
+    runKey r B none (t :: ts) = outs r B { tok := B, last := t } (t :: ts) := by
+  simp only [runKey, outs, Option.getD_none, lemma_runKey_some]
+
+theorem lemma_outs_allowed (r B : Int) (s : Bucket) (ts : List Int) :
+    (outs r B s ts).map (·.allowed) = (run r B s ts).2 := by
+  induction ts generalizing s with
+  | nil => rfl
+  | cons t ts ih => simp only [outs, run, List.map_cons, ih]
+
+theorem lemma_outs_length (r B : Int) (s : Bucket) (ts : List Int) : (outs r B s ts).length = ts.length := by
+  induction ts generalizing s with
+  | nil => rfl
+  | cons t ts ih => simp only [outs, List.length_cons, ih]
+
+theorem lemma_outs_take (r B : Int) (s : Bucket) (ts : List Int) (n : Nat) :
+    (outs r B s ts).take n = outs r B s (ts.take n) := by
+  induction ts generalizing s n with
+  | nil => simp [outs]
+  | cons t ts ih =>
+    cases n with
+    | zero => simp [outs]
+    | succ n => simp only [outs, List.take_succ_cons, ih]
+
+theorem lemma_min_max (l : List Int) : ∀ t ∈ l, minL l ≤ t ∧ t ≤ maxL l := by
+  induction l with
+  | nil => simp
+  | cons a rest ih =>
+    cases rest with
+    | nil => intro t ht; simp at ht; subst ht; simp [minL, maxL]
+    | cons b rest' =>
+      intro t ht
+      have hmin : minL (a :: b :: rest') = min a (minL (b :: rest')) := rfl
+      have hmax : maxL (a :: b :: rest') = max a (maxL (b :: rest')) := rfl
+      rw [hmin, hmax]
+      rcases List.mem_cons.mp ht with rfl | ht
+      · omega
+      · have := ih t ht
+        omega
+
+theorem lemma_take_zip {α β} (a : List α) (b : List β) (n : Nat) : (a.zip b).take n = (a.take n).zip (b.take n) := by
+  induction a generalizing b n with
+  | nil => simp
+  | cons x a ih =>
+    cases b with
+    | nil => simp
+    | cons y b =>
+      cases n with
+      | zero => simp
+      | succ n => simp [ih]
+
+theorem lemma_count_allowed (r B : Int) (s : Bucket) (l : List Int) :
+    ((l.zip (outs r B s l)).filter (·.2.allowed)).length = countTrue (run r B s l).2 := by
+  unfold countTrue
+  induction l generalizing s with
+  | nil => rfl
+  | cons t l ih =>
+    simp only [outs, run, List.zip_cons_cons, List.filter_cons]
+    cases h : (allow r B s t).2.allowed
+    · simp only [Bool.false_eq_true, if_false, id]
+      exact ih _
+    · simp only [if_true, id, List.length_cons]
+      rw [ih]
+
+/-- the admission bound holds on every prefix of a key's answers, from any entry state -/
+theorem lemma_boundFrom (r B : Int) (hr : 0 ≤ r) (hB : 0 ≤ B) (s : Bucket) (ts : List Int) :
+    boundFrom r B (ts.zip (outs r B s ts)) = true := by
+  unfold boundFrom
+  rw [List.all_eq_true]
+  intro n _
+  simp only [decide_eq_true_eq]
+  have htake : (ts.zip (outs r B s ts)).take n = (ts.take n).zip (outs r B s (ts.take n)) := by
+    rw [lemma_take_zip, lemma_outs_take]
+  rw [htake]
+  have hts : ((ts.take n).zip (outs r B s (ts.take n))).map (·.1) = ts.take n := by
+    rw [List.map_fst_zip]; rw [lemma_outs_length]; exact Nat.le_refl _
+  rw [hts, lemma_count_allowed]
+  cases hl : ts.take n with
+  | nil => simp [run, countTrue, minL, maxL]; omega
+  | cons a l =>
+    have hmm := lemma_min_max (a :: l)
+    have hT : 0 ≤ maxL (a :: l) - minL (a :: l) := by
+      have := hmm a (List.mem_cons_self ..); omega
+    exact bucket_never_over_admits r B hr hB s (a :: l) (minL (a :: l)) (maxL (a :: l) - minL (a :: l)) hT
+      (fun t ht => by have := hmm t ht; omega)
+
+theorem lemma_boundOK (r B : Int) (hr : 0 ≤ r) (hB : 0 ≤ B) (s : Bucket) (ts : List Int) :
+    boundOK r B (ts.zip (outs r B s ts)) = true := by
+  induction ts generalizing s with
+  | nil => rfl
+  | cons t ts ih =>
+    have h1 := lemma_boundFrom r B hr hB s (t :: ts)
+    simp only [outs, List.zip_cons_cons] at h1 ⊢
+    simp only [boundOK, h1, Bool.true_and]
+    exact ih _
+
+/-- waiting longer never hurts: from the same entry, a later call is admitted if an earlier one is -/
+theorem lemma_allow_mono (r B : Int) (hr : 0 ≤ r) (s : Bucket) (t t' : Int) (ht : t ≤ t')
+    (h : (allow r B s t).2.allowed = true) : (allow r B s t').2.allowed = true := by
+  unfold allow take refill at h ⊢
+  simp only [decide_eq_true_eq] at h ⊢
+  have h1 := lemma_mul_sub r t s.last
+  have h2 := lemma_mul_sub r t' s.last
+  have hmono : r * t ≤ r * t' := Int.mul_le_mul_of_nonneg_left ht hr
+  split at h <;> split <;> omega
+
+theorem lemma_retryHolds (r B : Int) (hr : 1 ≤ r) (hB : 512 ≤ B) (s : Bucket) (ts : List Int) :
+    retryHolds (ts.zip (outs r B s ts)) = true := by
+  induction ts generalizing s with
+  | nil => rfl
+  | cons t1 ts ih =>
+    cases ts with
+    | nil => rfl
+    | cons t2 rest =>
+      have ih' := ih (allow r B s t1).1
+      simp only [outs, List.zip_cons_cons] at ih' ⊢
+      simp only [retryHolds, ih', Bool.and_true]
+      by_cases hc : (!(allow r B s t1).2.allowed && decide (t2 ≥ t1 + 512 * (allow r B s t1).2.reset)) = true
+      · simp only [hc, if_true]
+        simp only [Bool.and_eq_true, Bool.not_eq_true', decide_eq_true_eq] at hc
+        obtain ⟨_, h2, _⟩ := retry_after_truthful r B hr hB s t1 hc.1
+        exact lemma_allow_mono r B (by omega) _ _ _ hc.2 h2
+      · have hc' : (!(allow r B s t1).2.allowed && decide (t2 ≥ t1 + 512 * (allow r B s t1).2.reset)) = false := by
+          simpa using hc
+        simp only [hc', Bool.false_eq_true, if_false]
+
+/-- the reference bucket's verdict on a later call equals the limiter's, as long as they are coupled -/
+theorem lemma_admits_eq (r B : Int) (hr : 0 ≤ r) (s : Bucket) (x : Ref) (now : Int)
+    (hc : Coupled r B s x) (hnow : s.last ≤ now) : x.admits r B now = (allow r B s now).2.allowed := by
+  obtain ⟨_, h2, _⟩ := lemma_coupled_step r B hr s x now hc hnow
+  rw [h2]; unfold Ref.admits Ref.step
+  by_cases h : x.avail r B now ≥ 512 <;> simp [h]
+
+theorem lemma_refAgrees (r B : Int) (hr : 1 ≤ r) (hB : 512 ≤ B) (s : Bucket) (x : Ref) (ts : List Int)
+    (hc : Coupled r B s x) (hsorted : sorted (s.last :: ts) = true) :
+    refAgrees r B x (ts.zip (outs r B s ts)) = true := by
+  induction ts generalizing s x with
+  | nil => rfl
+  | cons t ts ih =>
+    simp only [sorted, Bool.and_eq_true, decide_eq_true_eq] at hsorted
+    have hr0 : 0 ≤ r := by omega
+    obtain ⟨hav, hdec, hcoup⟩ := lemma_coupled_step r B hr0 s x t hc hsorted.1
+    have ih' := ih (allow r B s t).1 (x.step r B t).1 hcoup (by rw [lemma_allow_last]; exact hsorted.2)
+    simp only [outs, List.zip_cons_cons, refAgrees, ih', Bool.and_true, hdec, beq_self_eq_true, Bool.true_and]
+    by_cases hadm : (x.step r B t).2 = true
+    · -- admitted: the whole tokens left
+      simp only [hadm, if_true]
+      have hge : x.avail r B t ≥ 512 := by
+        unfold Ref.step at hadm; by_cases h : x.avail r B t ≥ 512
+        · exact h
+        · simp [h] at hadm
+      have hrem : (allow r B s t).2.remaining = (x.avail r B t - 512) / 512 := by
+        unfold allow take; simp only [hav, hge, if_true]
+      have hlev : (x.step r B t).1.level = x.avail r B t - 512 := by
+        unfold Ref.step; simp only [hge, if_true]
+      rw [hrem, hlev]; simp
+    · -- rejected: nothing remaining, and the reset is the least whole number of seconds
+      have hrej : (allow r B s t).2.allowed = false := by rw [hdec]; simpa using hadm
+      simp only [hadm, Bool.false_eq_true, if_false]
+      have hlt : ¬ x.avail r B t ≥ 512 := by
+        intro h; apply hadm; unfold Ref.step; simp [h]
+      have hrem : (allow r B s t).2.remaining = 0 := by
+        unfold allow take; simp only [hav, hlt, if_false]
+      obtain ⟨h1, h2, h3⟩ := retry_after_truthful r B hr hB s t hrej
+      -- after the rejection the entry is still coupled with the (unchanged) reference bucket
+      have hx : (x.step r B t).1 = x := by unfold Ref.step; simp only [hlt, if_false]
+      rw [hx] at hcoup
+      have hl := lemma_allow_last r B s t
+      generalize (allow r B s t).2.reset = R at h1 h2 h3 ⊢
+      have e1 := lemma_admits_eq r B hr0 (allow r B s t).1 x (t + 512 * R) hcoup (by rw [hl]; omega)
+      have e2 := lemma_admits_eq r B hr0 (allow r B s t).1 x (t + 512 * (R - 1)) hcoup (by rw [hl]; omega)
+      simp only [hrem, beq_self_eq_true, Bool.true_and, resetTruthful, e1, h2, Bool.and_true, decide_eq_true_eq.mpr h1]
+      rcases h3 with h3 | h3
+      · simp [h3]
+      · simp [e2, h3]
+
+/-- **The token-bucket model satisfies the whole oracle** the driver evaluates on the real store, for
+    every trace: any number of keys, any clock sequence per key (the reference agreement is demanded —
+    and proved — for the keys whose clock never regresses), any rate ≥ 1 and burst ≥ 1. -/
+theorem bucket_meets_spec (r B : Int) (hr : 1 ≤ r) (hB : 512 ≤ B) (calls : List (Bytes × Int)) :
+    bucketSpecOK r B calls (runStore r B [] calls) = true := by
+  unfold bucketSpecOK
+  rw [lemma_runStore_length]
+  simp only [beq_self_eq_true, Bool.true_and, List.all_eq_true]
+  intro k _
+  rw [lemma_project]
+  have hget : Store.get [] k = none := rfl
+  rw [hget]
+  cases hts : (calls.filter (·.1 == k)).map (·.2) with
+  | nil => rfl
+  | cons t0 ts =>
+    rw [lemma_runKey_none]
+    have h1 := lemma_boundOK r B (by omega) (by omega) { tok := B, last := t0 } (t0 :: ts)
+    have h2 := lemma_retryHolds r B hr hB { tok := B, last := t0 } (t0 :: ts)
+    rw [h1, h2]
+    simp only [Bool.true_and]
+    by_cases hs : sorted (((t0 :: ts).zip (outs r B { tok := B, last := t0 } (t0 :: ts))).map (·.1)) = true
+    · have hmap : ((t0 :: ts).zip (outs r B { tok := B, last := t0 } (t0 :: ts))).map (·.1) = t0 :: ts := by
+        rw [List.map_fst_zip]; rw [lemma_outs_length]; exact Nat.le_refl _
+      rw [hmap] at hs
+      have h3 := lemma_refAgrees r B hr hB { tok := B, last := t0 } { level := B, at_ := t0 } (t0 :: ts)
+        (lemma_coupled_new r B t0) (by simp only [sorted, Int.le_refl, decide_true, Bool.true_and]; exact hs)
+      simp only [outs, List.zip_cons_cons] at h3 hs ⊢
+      simp only [List.map_cons, hmap] at *
+      simp [h3]
+    · simp only [outs, List.zip_cons_cons] at hs ⊢
+      have hs' : sorted (((t0, (allow r B { tok := B, last := t0 } t0).2) ::
+          ts.zip (outs r B (allow r B { tok := B, last := t0 } t0).1 ts)).map (·.1)) = false := by simpa using hs
+      simp only [hs', Bool.false_eq_true, if_false]
+
 /-! ## sliding window, requests served one after the other -/
 
 /-- one request served without interruption: `GetCounts`, the decision, `Incr` -/
